@@ -14,14 +14,21 @@ let rec split_on sep = function
   | x :: r when x = sep -> [] :: split_on sep r
   | x :: r -> (match split_on sep r with h :: t -> (x :: h) :: t | [] -> [[x]])
 
-type opline = { op : string list; res : string list option; pan : string option }
+(* olog: None = no `olog` line, Some None = `olog absent` (hook H9 not in the sources), Some (Some l) = the records *)
+type opline = { op : string list; res : string list option; pan : string option;
+                olog : string list list option option }
 
 let collect_ops (b : block) : opline list =
   let rec go acc cur = function
     | [] -> List.rev (match cur with Some c -> c :: acc | None -> acc)
     | ("op", t) :: r ->
       let acc = match cur with Some c -> c :: acc | None -> acc in
-      go acc (Some { op = t; res = None; pan = None }) r
+      go acc (Some { op = t; res = None; pan = None; olog = None }) r
+    | ("olog", ["absent"]) :: r -> go acc (Option.map (fun c -> { c with olog = Some None }) cur) r
+    | ("olog", _) :: r -> go acc (Option.map (fun c -> { c with olog = Some (Some []) }) cur) r
+    | ("o", t) :: r ->
+      go acc (Option.map (fun c ->
+          match c.olog with Some (Some l) -> { c with olog = Some (Some (t :: l)) } | _ -> c) cur) r
     | ("r", t) :: r -> go acc (Option.map (fun c -> { c with res = Some t }) cur) r
     | ("panic", t) :: r -> go acc (Option.map (fun c -> { c with pan = Some (String.concat " " t) }) cur) r
     | _ :: r -> go acc cur r
@@ -57,6 +64,8 @@ let mask_of_complete n (c : int list) : int option =
     in
     go 1 0 c
 
+let show_cfgs l = String.concat " ; " (List.map (fun x -> String.concat " " (List.map string_of_int x)) l)
+
 let size_bucket k =
   if k = 0 then "0" else if k <= 2 then "1-2" else if k <= 5 then "3-5" else if k <= 10 then "6-10"
   else if k <= 20 then "11-20" else if k <= 50 then "21-50" else "51+"
@@ -65,6 +74,102 @@ let size_bucket k =
 let ext_budget = 40_000_000
 
 let rec binom n k = if k < 0 || k > n then 0 else if k = 0 then 1 else binom (n - 1) (k - 1) * n / k
+
+(* ---- replay of a recorded plain run in the extracted pipeline model (hook H9) ----
+   The order decisions the implementation took (hash-set iteration order of the cross interactions
+   per ZippingMerger::merge call, the order after sort_unstable, the trim decision, the shuffled
+   literal list) are fed to Mdl.TwisePipeline.sample_t_wise as its oracles; the model must then
+   return exactly the implementation's sample: the same configurations in the same order.
+   A recorded list that is not a permutation of what the model asks to be ordered, a missing or a
+   left-over record are reported as DIFF as well. *)
+exception Replay_mismatch of string
+
+let replay_run (b : block) (n : int) (t : int) (fitness : int list option) (records : string list list)
+  : (int list list option, string) result =
+  (* records arrive newest first *)
+  let records = List.rev records in
+  let ints_q : (int, int list list Queue.t) Hashtbl.t = Hashtbl.create 16 in
+  let sort_q : (int, int list Queue.t) Hashtbl.t = Hashtbl.create 16 in
+  let trim_q = Queue.create () and shuf_q = Queue.create () in
+  let q_of h k = match Hashtbl.find_opt h k with Some q -> q | None -> let q = Queue.create () in Hashtbl.replace h k q; q in
+  let cur = ref None in
+  let flush () = match !cur with Some (node, acc) -> Queue.add (List.rev acc) (q_of ints_q node); cur := None | None -> () in
+  List.iter (fun r ->
+      match r with
+      | ["ints"; node] -> flush (); cur := Some (int_of_string node, [])
+      | "i" :: lits -> (match !cur with Some (node, acc) -> cur := Some (node, ints lits :: acc) | None -> ())
+      | "sort" :: node :: perm -> flush (); Queue.add (ints perm) (q_of sort_q (int_of_string node))
+      | "trim" :: bits -> flush (); Queue.add (List.map (fun x -> x = "1") bits) trim_q
+      | "shuf" :: lits -> flush (); Queue.add (ints lits) shuf_q
+      | _ -> ()) records;
+  flush ();
+  let mismatch = ref None in
+  let note s = if !mismatch = None then mismatch := Some s in
+  let ord_int node _phase _step (l : Model.z list list) : Model.z list list =
+    let node = Conv.int_of_nat node in
+    let li = List.map Conv.ints_of_zlist l in
+    match Hashtbl.find_opt ints_q node with
+    | Some q when not (Queue.is_empty q) ->
+      let r = Queue.pop q in
+      if List.sort compare r = List.sort compare li then List.map Conv.zlist_of_ints r
+      else begin
+        note (Printf.sprintf "node %d: the recorded interaction set (%d) is not the model's (%d)" node (List.length r) (List.length li)); l
+      end
+    | _ -> note (Printf.sprintf "node %d: the model orders a set of %d cross interactions, no record left" node (List.length li)); l
+  in
+  let ord_sort node (l : Mdl.TwiseCfg.sample list) : Mdl.TwiseCfg.sample list =
+    let node = Conv.int_of_nat node in
+    let k = List.length l in
+    match Hashtbl.find_opt sort_q node with
+    | Some q when not (Queue.is_empty q) ->
+      let perm = Queue.pop q in
+      if List.sort compare perm = List.init k (fun i -> i) then List.map (List.nth l) perm
+      else begin note (Printf.sprintf "node %d: recorded sort order [%s] is not a permutation of 0..%d" node (String.concat " " (List.map string_of_int perm)) (k - 1)); l end
+    | _ -> note (Printf.sprintf "node %d: the model sorts %d samples, no record left" node k); l
+  in
+  let trim_pick (cfgs : Model.z list list) : bool list =
+    if Queue.is_empty trim_q then begin note "the model trims, no trim record"; [] end
+    else begin
+      let m = Queue.pop trim_q in
+      if List.length m <> List.length cfgs then
+        note (Printf.sprintf "trim record has %d entries, the model's sample %d configurations" (List.length m) (List.length cfgs));
+      m
+    end
+  in
+  let ord_shuf (l : Model.z list) : Model.z list =
+    if Queue.is_empty shuf_q then begin note "the model shuffles, no shuf record"; l end
+    else begin
+      let r = Queue.pop shuf_q in
+      let li = Conv.ints_of_zlist l in
+      if List.sort compare r = List.sort compare li then Conv.zlist_of_ints r
+      else begin note (Printf.sprintf "recorded shuffled literals [%s] are not a permutation of the model's [%s]"
+                         (String.concat " " (List.map string_of_int r)) (String.concat " " (List.map string_of_int li))); l end
+    end
+  in
+  let d = Model.build b.circuit (Conv.nat_of_int n) in
+  let res =
+    match fitness with
+    | None -> Mdl.TwisePipeline.sample_t_wise d (Conv.nat_of_int t) ord_int ord_sort trim_pick ord_shuf
+    | Some f -> Mdl.TwiseFitness.sample_t_wise_fit d (Conv.nat_of_int t) (Conv.zlist_of_ints f) trim_pick ord_shuf in
+  let left = Hashtbl.fold (fun _ q a -> a + Queue.length q) ints_q 0
+             + Hashtbl.fold (fun _ q a -> a + Queue.length q) sort_q 0
+             + Queue.length trim_q + Queue.length shuf_q in
+  match !mismatch with
+  | Some s -> Error s
+  | None ->
+    if left > 0 then Error (Printf.sprintf "%d recorded decisions were not consumed by the model" left)
+    else
+      Ok (match res with
+          | None -> None
+          | Some r ->
+            Some (match r with
+                | Mdl.TwisePipeline.Void -> [[min_int]]
+                | Mdl.TwisePipeline.Empty -> []
+                | Mdl.TwisePipeline.WithSample _ ->
+                  List.map Conv.ints_of_zlist (Mdl.TwisePipeline.sres_configs r)))
+
+(* cost bound for a replay (interaction count x configurations x nodes, very rough) *)
+let replay_budget = 60_000_000
 
 let check_twise (b : block) : verdict list =
   match impl b "panic" with
@@ -106,10 +211,52 @@ let check_twise (b : block) : verdict list =
           let t = int_of_string ts in
           let tt = min t n in
           bump (Printf.sprintf "c09_runs_%s" variant);
+          (* tie to the model: replay of the recorded order decisions (plain library runs) *)
+          (* the fitness variant (Model/TwiseFitness.v) is deterministic up to the trim decision and the shuffle *)
+          let fit_vals = match o.op with
+            | _ :: _ :: "fitness" :: vs -> (try Some (ints vs) with _ -> None)
+            | _ -> None in
+          (if variant = "plain" || (variant = "fitness" && fit_vals <> None) then
+             match o.olog with
+             | None | Some None -> bump "c09_replay_no_log"
+             | Some (Some records) ->
+               let nodes = List.length b.circuit in
+               let cost = nodes * (binom n tt) * (1 lsl tt) * 40 in
+               if nodes = 0 || cost > replay_budget then bump "c09_replay_skipped_cost"
+               else begin
+                 let impl_res =
+                   match o.pan, o.res with
+                   | Some _, _ -> `Panic
+                   | None, Some ("VOID" :: _) -> `Cfgs [[min_int]]
+                   | None, Some ("EMPTY" :: _) -> `Cfgs []
+                   | None, Some ("S" :: rest) -> `Cfgs (List.filter (fun c -> c <> []) (List.map ints (split_on ";" rest)))
+                   | _ -> `Other in
+                 let tag = if variant = "plain" then "c09_replay" else "c09_fit_replay" in
+                 match (try replay_run b n t (if variant = "plain" then None else fit_vals) records
+                        with e -> Error ("exception " ^ Printexc.to_string e)) with
+                 | Error msg ->
+                   bump (tag ^ "_oracle_mismatch");
+                   add (Diff ("twise-replay-oracle", Printf.sprintf "[%s] %s" opdesc msg))
+                 | Ok m ->
+                   (match m, impl_res with
+                    | None, `Panic -> bump (tag ^ "_panic_agree")
+                    | Some mc, `Cfgs ic when mc = ic -> bump (tag ^ "_equal"); bump_by (tag ^ "_equal_configs") (List.length ic)
+                    | None, _ -> add (Diff ("twise-replay", Printf.sprintf "[%s] the model panics, the implementation does not" opdesc))
+                    | Some _, `Panic -> add (Diff ("twise-replay", Printf.sprintf "[%s] the implementation panics, the model does not" opdesc))
+                    | Some mc, `Cfgs ic ->
+                      add (Diff ("twise-replay", Printf.sprintf "[%s] replayed model sample [%s] differs from the implementation's [%s]"
+                                   opdesc (show_cfgs mc) (show_cfgs ic)))
+                    | Some _, `Other -> add (Diff ("c09-protocol", "no usable result for " ^ opdesc)))
+               end);
           bump (Printf.sprintf "c09_runs_n%s_t%d" (if n <= 3 then string_of_int n else if n <= 6 then "4-6" else if n <= 9 then "7-9" else "10+") t);
           (match o.pan, o.res with
            | Some msg, _ ->
-             add (Viol ("twise:panic", Printf.sprintf "[%s] panicked: %s" opdesc msg))
+             (* K36 input class: some node lists a child twice (checked on the dumped vector) *)
+             let repeated = List.exists (fun nd ->
+                 let cs = match nd with Model.And cs | Model.Or cs -> List.map Conv.int_of_nat cs | _ -> [] in
+                 List.length (List.sort_uniq compare cs) <> List.length cs) b.circuit in
+             add (Viol ((if repeated then "twise:panic:repeated-child" else "twise:panic"),
+                        Printf.sprintf "[%s] panicked: %s" opdesc msg))
            | None, None -> add (Diff ("c09-protocol", "no result for " ^ opdesc))
            | None, Some ("ERROR" :: msg) ->
              add (Viol ("twise:error", Printf.sprintf "[%s] answered with an error: %s" opdesc (String.concat " " msg)))
